@@ -154,31 +154,8 @@ class EscapeAnalysis:
         return out
 
     def _owner(self, fn: FuncInfo) -> FuncInfo:
-        from .collect import default_inline
-        if not hasattr(self, "_callers"):
-            cal: Dict[str, Set[str]] = {}
-            for f in self.p.all_functions():
-                for n in ast.walk(f.node):
-                    if isinstance(n, ast.Call):
-                        try:
-                            r = self.p.resolve_call(f, n)
-                        except Exception:
-                            r = None
-                        if isinstance(r, FuncInfo) and r is not f:
-                            cal.setdefault(r.fq, set()).add(f.fq)
-            self._callers = cal
-        cur = fn
-        for _ in range(4):
-            if not default_inline(cur) or cur.name.startswith("__"):
-                break
-            cs = self._callers.get(cur.fq, set())
-            if len(cs) != 1:
-                break
-            try:
-                cur = self.p.func(next(iter(cs)))
-            except Exception:
-                break
-        return cur
+        from .common import owner_of
+        return owner_of(self.p, fn)
 
     def _escapes(self, fn: FuncInfo, self_cls, param_taint, depth) -> FrozenSet[Esc]:
         env = self.ta.function_env(fn, self_cls, param_taint)
